@@ -389,20 +389,22 @@ impl<'a, 'b> SchemerContext<'a, 'b> {
                     allowed,
                     values: value,
                 } => {
-                    for v in value {
-                        match v {
-                            VoidUndefinedSubtype::Void => {
-                                acc.insert(maybe_not(Runtype::void(), !allowed));
-                            }
-                            VoidUndefinedSubtype::Undefined => {
-                                acc.insert(maybe_not(Runtype::undefined(), !allowed));
-                            }
+                    // a finite domain: "all except these" is the list of the others, not a
+                    // union of negations (which would reach the printer)
+                    for v in [VoidUndefinedSubtype::Void, VoidUndefinedSubtype::Undefined] {
+                        if value.contains(&v) == *allowed {
+                            acc.insert(match v {
+                                VoidUndefinedSubtype::Void => Runtype::void(),
+                                VoidUndefinedSubtype::Undefined => Runtype::undefined(),
+                            });
                         }
                     }
                 }
                 ProperSubtype::TypedArray { allowed, values } => {
-                    for kind in values {
-                        acc.insert(maybe_not(Runtype::typed_array(*kind), !allowed));
+                    for kind in TypedArrayKind::all() {
+                        if values.contains(&kind) == *allowed {
+                            acc.insert(Runtype::typed_array(kind));
+                        }
                     }
                 }
                 ProperSubtype::Map(bdd) => {
@@ -485,11 +487,4 @@ fn all_except(base: Runtype, excluded: Vec<Runtype>) -> Runtype {
     let mut parts = vec![base];
     parts.extend(excluded.into_iter().map(|it| Runtype::st_not(Box::new(it))));
     Runtype::all_of(parts)
-}
-fn maybe_not(it: Runtype, add_not: bool) -> Runtype {
-    if add_not {
-        Runtype::st_not(Box::new(it))
-    } else {
-        it
-    }
 }
